@@ -556,7 +556,7 @@ def gen_mesh_extra(rng, algo, nettype):
     return finish(rng, cfg, eps + extra, [rt, {"name": "periph_router"}], conns)
 
 
-def gen_tree(rng, algo, nettype, tree=None):
+def gen_tree(rng, algo, nettype, tree=None, per=None, flip=None):
     aw = 48
     cfg = base_cfg(rng, "tree", nettype, algo, aw)
     alloc = AddrAlloc(rng, aw)
@@ -574,14 +574,14 @@ def gen_tree(rng, algo, nettype, tree=None):
     nm = names(rng, 5)
     # leaves: an array of endpoints spread over the deepest level
     leaf_lvl = len(tree) - 1
-    per = rng.randint(1, 2)
+    per = per or rng.randint(1, 2)
     total = counts[leaf_lvl] * per
     leaf = mk_endpoint(rng, nettype, alloc, nm[0], array=[total], force_role=rng.choice(["dual", "dual", "mgr", "sbr"]))
     eps.append(leaf)
     c1 = {"src": nm[0], "dst": rname, "src_range": [[0, total - 1]], "dst_lvl": leaf_lvl}
     if per > 1 or rng.random() < 0.3:
         c1["allow_multi"] = True
-    conns.append(c1 if rng.random() < 0.6 else flip_conn(c1))
+    conns.append(flip_conn(c1) if (flip if flip is not None else rng.random() >= 0.6) else c1)
     # a few single endpoints on the root
     for e in nm[1:1 + rng.randint(1, 3)]:
         ep = mk_endpoint(rng, nettype, alloc, e)
@@ -764,6 +764,24 @@ def gen_name_prefix_routers(rng, algo, nettype):
         conns.append({"src": e, "dst": r})
     conns += [{"src": "edge", "dst": "sw2"}, {"src": "edge", "dst": "sw"}, {"src": "sw2", "dst": "sw"}]
     return finish(rng, cfg, eps, [{"name": "sw2"}, {"name": "sw"}, {"name": "edge"}], conns, shuffle=False)
+
+
+def gen_prefix_protocols(rng, algo):
+    """axi star whose protocols keep the default type prefix; one manager-only endpoint uses a protocol whose
+    name is another protocol's name without that prefix (`in` next to `axi_in`)"""
+    aw = 32
+    cfg = base_cfg(rng, "pfx", "axi", algo, aw)
+    def prot(name, idw):
+        return {"name": name, "protocol": "AXI4", "data_width": 64, "addr_width": aw, "id_width": idw, "user_width": 1}
+    cfg["protocols"] = [prot("axi_in", 4), prot("in", 4), prot("out", 3)]
+    eps = [{"name": "cluster", "array": [2], "addr_range": {"base": 0x1000_0000, "size": 0x1_0000},
+            "mgr_port_protocol": ["axi_in"], "sbr_port_protocol": ["out"]},
+           {"name": "host", "mgr_port_protocol": ["in"]},
+           {"name": "mem", "addr_range": {"start": 0x8000_0000, "size": 0x1000_0000}, "sbr_port_protocol": ["out"]}]
+    conns = [{"src": "cluster", "dst": "xbar", "src_range": [[0, 1]], "allow_multi": True},
+             {"src": "host", "dst": "xbar"}, {"src": "mem", "dst": "xbar"}]
+    cfg.update(endpoints=eps, routers=[{"name": "xbar"}], connections=conns)
+    return cfg
 
 
 def gen_deep_tree(rng, algo, nettype, tree):
@@ -968,3 +986,23 @@ def permutations_of(cfg, limit=24):
 def stats_key(meta, cfg):
     neps = sum(1 for _ in cfg["endpoints"])
     return f'{meta["family"]}/{meta["algo"]}/{meta["nettype"]}/eps{neps}'
+
+
+def _retrying(f):
+    """the builders give up (None) when a drawn role mix leaves a protocol unused: draw again a few times"""
+    def g(rng, *a, **k):
+        for _ in range(6):
+            r = f(rng, *a, **k)
+            if r:
+                return r
+        return None
+    g.__name__ = f.__name__
+    g.__doc__ = f.__doc__
+    return g
+
+
+for _n in ("gen_star", "gen_mesh", "gen_mesh_extra", "gen_tree", "gen_torus", "gen_chain_hub", "gen_tree_bypass",
+           "gen_overfull", "gen_degree_mesh", "gen_ring_eject", "gen_hub_bypass", "gen_chain_xbar", "gen_tree_manual",
+           "gen_partial_side", "gen_name_prefix_routers", "gen_chain_express", "gen_deep_tree"):
+    if _n in globals():
+        globals()[_n] = _retrying(globals()[_n])
